@@ -287,6 +287,33 @@ def df_put(c, a):
     return {"ret": rr}
 
 
+@op("Annot", "DfOther")
+def df_other(c, a):
+    """the same call on a second file (kept for the whole behaviour), read back from there"""
+    L = c.L
+    ty = a["type"]
+    t, r = TGT[a["target"]]
+    raw = text(ty, a["len"], a["k"])
+    pa = c.path()
+    pb = (pa if isinstance(pa, bytes) else pa.encode()) + b".other"
+    if ty == "ol":
+        rr = L.DFANputlabel(pb, t, r, raw + b"\0")
+    else:
+        b = CBuf(max(len(raw), 1), raw)
+        rr = L.DFANputdesc(pb, t, r, b.ptr, len(raw))
+        b.free()
+    back = False
+    if rr != FAIL:
+        n = (L.DFANgetlablen if ty == "ol" else L.DFANgetdesclen)(pb, t, r)
+        if n == len(raw):
+            extra = 1 if ty == "ol" else 0
+            b = CBuf(max(n + extra, 1))
+            g = (L.DFANgetlabel if ty == "ol" else L.DFANgetdesc)(pb, t, r, b.ptr, n + extra)
+            back = (g != FAIL and b.raw()[:n] == raw)
+            b.free()
+    return {"ret": rr, "back": back}
+
+
 @op("Annot", "DfAddFile")
 def df_addfile(c, a):
     L = c.L
